@@ -13,6 +13,7 @@ import copy
 import re
 
 SLOT = re.compile(r'__FS([TSO])_(\w*)$')
+STR_SLOT = re.compile(r'\b__FS[TSO]_(\w*)\b')          # a slot inside a string / bytes constant of the template
 
 
 class Refuse(Exception):
@@ -250,6 +251,36 @@ class Ref:
                 if c[0] == 'slice' and c[1] and isinstance(c[1][0], ast.stmt):
                     raise Skip('statement slice in an expression slot')
                 return put(c)
+            if isinstance(t, ast.Constant) and isinstance(t.value, (str, bytes)):
+                text = t.value if isinstance(t.value, str) else t.value.decode('latin-1')
+                if STR_SLOT.search(text):
+                    # textual substitution inside the constant: expected VALUE = template text with every slot name
+                    # replaced by the source of the captured node (judged on the re-parsed result, see check_spec)
+                    parts, pos = [], 0
+                    for mm in STR_SLOT.finditer(text):
+                        parts.append(text[pos:mm.start()])
+                        tag = mm.group(1)
+                        if not tag:
+                            c = ('whole', node)
+                        else:
+                            c = caps.get(tag)
+                        if c is not None:
+                            if c[0] == 'slice' or isinstance(c[1], ast.stmt) or not isinstance(c[1], ast.expr):
+                                raise Skip('string slot with a statement or slice capture')
+                            c = c[1]
+                            if isinstance(t.value, bytes):
+                                try:
+                                    ascii_ok = ast.unparse(ast.fix_missing_locations(copy.deepcopy(c))).isascii()
+                                except Exception:
+                                    ascii_ok = False
+                                if not ascii_ok:
+                                    raise Skip('non-ASCII source into a bytes constant')
+                        parts.append(('slot', c))
+                        pos = mm.end()
+                    parts.append(text[pos:])
+                    n = copy.copy(t)
+                    n._c18_spec = (parts, isinstance(t.value, bytes))
+                    return [n]
             n = copy.copy(t)
             for name, v in ast.iter_fields(t):
                 if isinstance(v, ast.AST):
@@ -308,3 +339,132 @@ def reference(root_fst, src, pat, tmpl_src, cat, nested, count, loop, on, quirk=
             if id(s) in new_ids:
                 kept.append(s)
     return res, ref.unique, ref.total, kept
+
+
+# ---------------------------------------------------------------------------------------------------------------------
+# comparison of the reference with the (re-parsed) result, string slots judged by value
+
+def _dump_noctx(n):
+    n = copy.deepcopy(n)
+    for x in ast.walk(n):
+        if hasattr(x, 'ctx'):
+            x.ctx = ast.Load()
+    return ast.dump(n)
+
+
+def _slot_text_ok(g, node):
+    try:
+        got = ast.parse('(' + g + '\n)', mode='eval').body
+    except (SyntaxError, ValueError, RecursionError):
+        return False
+    return cmp_ast(node, got, 'slot', ctx=False) is None
+
+
+def _match_parts(parts, i, text, pos):
+    """text[pos:] = parts[i:] with every slot replaced by source text of its captured node (all splits tried)"""
+    if i == len(parts):
+        return pos == len(text)
+    p = parts[i]
+    if isinstance(p, str):
+        return text.startswith(p, pos) and _match_parts(parts, i + 1, text, pos + len(p))
+    if p[1] is None:                                    # tag not set by the match: replaced by nothing
+        return _match_parts(parts, i + 1, text, pos)
+    nxt = parts[i + 1] if i + 1 < len(parts) and isinstance(parts[i + 1], str) else ''
+    if i + 1 >= len(parts) - 1 and isinstance(nxt, str) and i + 2 >= len(parts):
+        ends = [len(text) - len(nxt)] if text.endswith(nxt) else []       # last slot: must reach the final literal
+    elif nxt:
+        ends, k = [], text.find(nxt, pos)
+        while k >= 0:
+            ends.append(k)
+            k = text.find(nxt, k + 1)
+    else:
+        ends = list(range(pos, len(text) + 1))
+    for e in ends:
+        if e >= pos and _slot_text_ok(text[pos:e], p[1]) and _match_parts(parts, i + 1, text, e):
+            return True
+    return False
+
+
+def check_spec(spec, value, path):
+    """the Constant VALUE in the parsed result must be the template string with every slot name replaced by source text
+    of the captured node (text that parses back to the captured node; layout of that text is pfst's business)"""
+    parts, is_bytes = spec
+    if is_bytes != isinstance(value, bytes) or not isinstance(value, (str, bytes)):
+        return f'{path}: constant type changed'
+    text = value.decode('latin-1') if is_bytes else value
+    merged = []
+    for p in parts:                                      # normalise: literals and slots alternate
+        if isinstance(p, str) and merged and isinstance(merged[-1], str):
+            merged[-1] += p
+        else:
+            merged.append(p)
+    if not _match_parts(merged, 0, text, 0):
+        return f'{path}: string constant {text!r} is not the template text with every slot replaced by the source of the captured node'
+    return None
+
+
+def cmp_ast(a, b, path='Module', ctx=True):
+    """None if the reference tree `a` and the result tree `b` agree, else a description"""
+    if isinstance(a, ast.expr_context) and isinstance(b, ast.expr_context) and not ctx:
+        return None
+    if type(a) is not type(b):
+        return f'{path}: {type(a).__name__} expected, {type(b).__name__} found'
+    if isinstance(a, ast.Constant) and hasattr(a, '_c18_spec'):
+        return check_spec(a._c18_spec, b.value, path)
+    for name in a._fields:
+        if name == 'type_comment':
+            continue
+        x, y = getattr(a, name, None), getattr(b, name, None)
+        p = f'{path}.{name}'
+        if isinstance(x, ast.AST) or isinstance(y, ast.AST):
+            if not (isinstance(x, ast.AST) and isinstance(y, ast.AST)):
+                return f'{p}: {x!r} expected, {y!r} found'
+            d = cmp_ast(x, y, p, ctx)
+            if d:
+                return d
+        elif isinstance(x, list) and isinstance(y, list):
+            if len(x) != len(y):
+                return f'{p}: {len(x)} elements expected, {len(y)} found'
+            for i, (u, v) in enumerate(zip(x, y)):
+                if isinstance(u, ast.AST) or isinstance(v, ast.AST):
+                    if not (isinstance(u, ast.AST) and isinstance(v, ast.AST)):
+                        return f'{p}[{i}]: {u!r} expected, {v!r} found'
+                    d = cmp_ast(u, v, f'{p}[{i}]', ctx)
+                    if d:
+                        return d
+                elif u != v:
+                    return f'{p}[{i}]: {u!r} expected, {v!r} found'
+        elif x != y or type(x) is not type(y):
+            return f'{p}: {x!r} expected, {y!r} found'
+    return None
+
+
+def has_string_slot(tmpl_src):
+    try:
+        t = ast.parse(tmpl_src)
+    except SyntaxError:
+        return False
+    for n in ast.walk(t):
+        if isinstance(n, ast.Constant) and isinstance(n.value, (str, bytes)):
+            v = n.value if isinstance(n.value, str) else n.value.decode('latin-1')
+            if STR_SLOT.search(v):
+                return True
+    return False
+
+
+def stale_constants_only(live, parsed):
+    """C01 failed: is the ONLY difference that string/bytes Constant values of the live tree still hold slot names
+    while the source (and so the parse) holds the filled text?  Positions included."""
+    a = copy.deepcopy(live)
+    la, lb = list(ast.walk(a)), list(ast.walk(parsed))
+    if len(la) != len(lb):
+        return False
+    n = 0
+    for x, y in zip(la, lb):
+        if isinstance(x, ast.Constant) and isinstance(y, ast.Constant) and x.value != y.value \
+                and isinstance(x.value, (str, bytes)) and type(x.value) is type(y.value):
+            v = x.value if isinstance(x.value, str) else x.value.decode('latin-1')
+            if STR_SLOT.search(v):
+                x.value = y.value
+                n += 1
+    return n > 0 and ast.dump(a, include_attributes=True) == ast.dump(parsed, include_attributes=True)
